@@ -35,6 +35,9 @@ type c19Case struct {
 	BVal2 c19P   `json:"bval2"`           // second value (Bound == "for2")
 	Neg   bool   `json:"neg,omitempty"`   // unary minus in front (numeric positions only)
 	Body  string `json:"body,omitempty"`  // filter tag: body kind
+	// filter tag with literal parameters only: autoescaping left on (literals of the template are
+	// not context text, the chain must still equal the ApplyFilter fold)
+	AutoOn bool `json:"auto_on,omitempty"`
 }
 
 func c19Context() pongo2.Context {
@@ -137,7 +140,7 @@ func (cs *c19Case) fold(start *pongo2.Value) (*pongo2.Value, error) {
 	return acc, nil
 }
 
-var c19Positions = []string{"output", "if", "elif", "for", "with", "with_as", "set", "include_with", "firstof", "ifequal", "widthratio", "macro_arg", "macro_default", "subscript",
+var c19Positions = []string{"output", "if", "elif", "for", "with", "with_rebind", "with_as", "set", "include_with", "firstof", "ifequal", "widthratio", "macro_arg", "macro_default", "subscript",
 	"filter_tag", "plus_operand", "neg", "cycle", "ifchanged"}
 
 func printItems(v *pongo2.Value) string {
@@ -169,6 +172,11 @@ func (cs *c19Case) build() (files map[string]string, expect func(v *pongo2.Value
 		expect = printItems
 	case "with":
 		src = "{% with w=" + e + " %}{{ w }}{% endwith %}"
+		expect = func(v *pongo2.Value) string { return v.String() }
+	case "with_rebind":
+		// the same tag rebinds every name the expression may read: each pair is evaluated in the
+		// scope the tag stands in, not in the one it builds
+		src = `{% with s="RB" n=99 w=` + e + ` z=77 e="RB2" f=1 p1="RB3" html="RB4" l="RB5" words="RB6" nilv="RB7" li="RB8" %}{{ w }}{% endwith %}`
 		expect = func(v *pongo2.Value) string { return v.String() }
 	case "with_as":
 		src = "{% with " + e + " as w %}{{ w }}{% endwith %}"
@@ -249,6 +257,8 @@ func (cs *c19Case) build() (files map[string]string, expect func(v *pongo2.Value
 		switch cs.Body {
 		case "text":
 			body, rendered = "Body Text", "Body Text"
+		case "markup":
+			body, rendered = "a&b <br> 'q' & \"d\"", "a&b <br> 'q' & \"d\""
 		case "var":
 			body, rendered = "x{{ n }}y", "x5y"
 		case "empty":
@@ -275,6 +285,9 @@ func (cs *c19Case) build() (files map[string]string, expect func(v *pongo2.Value
 		src = "{% for p1 in [" + cs.BVal.src() + ", " + cs.BVal2.src() + "] %}" + src + "|{% endfor %}"
 	}
 	files["/root.tpl"] = "{% autoescape off %}" + src + "{% endautoescape %}"
+	if cs.AutoOn {
+		files["/root.tpl"] = src
+	}
 	return files, expect, start
 }
 
@@ -291,6 +304,15 @@ func checkC19(c any, r *Rec) error {
 		return fmt.Errorf("does not compile: %v\n src=%q", err, src)
 	}
 	got, xerr := tpl.Execute(c19Context())
+	if cs.Pos == "with_rebind" {
+		// the pairs of a with tag have no order: render a few more times
+		for i := 0; i < 8; i++ {
+			g2, e2 := tpl.Execute(c19Context())
+			if g2 != got || (e2 == nil) != (xerr == nil) {
+				return fmt.Errorf("the same template and context rendered %q / %v and then %q / %v\n src=%q", got, xerr, g2, e2, src)
+			}
+		}
+	}
 	if cs.Bound == "for2" {
 		// two passes of the loop: the expectation is computed pass by pass
 		var exp strings.Builder
@@ -408,7 +430,7 @@ func genC19Param(t *rapid.T, bound bool) c19P {
 	case "int":
 		return c19P{K: "int", I: drawInt(t, 0, 12, "pi")}
 	case "str":
-		return c19P{K: "str", S: pick(t, "ps", []string{"", " ", ",", "x", "1:3", ":2", "o", "y,ies", "ja,nein", "b,i", "%v", "%5v", "2006-01-02", "World", "abc"})}
+		return c19P{K: "str", S: pick(t, "ps", []string{"", " ", ",", "x", "1:3", ":2", "o", "y,ies", "ja,nein", "b,i", "%v", "%5v", "2006-01-02", "World", "abc", "&", "<", "<br>", "a'b", "&amp;", ">"})}
 	case "name":
 		return c19P{K: "name", S: pick(t, "pn", []string{"n", "z", "s", "e", "f", "nilv", "undefinedname"})}
 	case "path":
@@ -466,10 +488,17 @@ func genC19(t *rapid.T) *c19Case {
 	}
 	switch cs.Pos {
 	case "filter_tag":
-		cs.Body = pick(t, "body", []string{"text", "var", "empty", "emptyvar", "loop"})
+		cs.Body = pick(t, "body", []string{"text", "var", "empty", "emptyvar", "loop", "markup", "markup"})
 		if len(cs.Chain) == 0 {
 			cs.Chain = []c19F{{Name: pick(t, "f1", fs)}}
 		}
+		literalOnly := cs.Bound == ""
+		for _, f := range cs.Chain {
+			if f.HasParam && f.P.K != "int" && f.P.K != "str" {
+				literalOnly = false
+			}
+		}
+		cs.AutoOn = literalOnly && drawBool(t, "autoon")
 	case "plus_operand", "neg", "subscript", "widthratio":
 		// make the value numeric most of the time
 		if drawInt(t, 0, 3, "numeric") > 0 {
@@ -487,7 +516,7 @@ func genC19(t *rapid.T) *c19Case {
 
 var _ = register(&propSpec{
 	ID:    "C19.chain",
-	Rule:  "chains of 0-4 deterministic registered filters (registry read through the hook; filters that answer two identical calls differently are detected at start and left out) with literal / context-name / dotted-path / enclosing-scope (with, for, set) parameters over literal and named inputs of every kind, written at 19 positions: output, if, elif, for-in, with (both syntaxes), set, include-with, firstof, ifequal, widthratio, macro argument and default, subscript, cycle, ifchanged, right operand of +, operand of unary minus, and the filter tag (bodies: text, variable, empty, empty variable, loop). Oracle: left-to-right fold of the public ApplyFilter with parameters taken from the reference scope, observed through the position's natural observation; a failing fold requires an execution error. Non-trivial: chain >= 2 whose reversal gives a different result, or a parameter from an enclosing scope; distinct by source.",
+	Rule:  "chains of 0-4 deterministic registered filters (registry read through the hook; filters that answer two identical calls differently are detected at start and left out) with literal / context-name / dotted-path / enclosing-scope (with, for, set) parameters over literal and named inputs of every kind, written at 20 positions: output, if, elif, for-in, with (both syntaxes; also with further pairs of the same tag rebinding every name the expression reads), set, include-with, firstof, ifequal, widthratio, macro argument and default, subscript, cycle, ifchanged, right operand of +, operand of unary minus, and the filter tag (bodies: text, text with markup characters, variable, empty, empty variable, loop; with literal parameters only also under autoescape on, where the chain must still equal the fold - string literals include & < > '). Oracle: left-to-right fold of the public ApplyFilter with parameters taken from the reference scope, observed through the position's natural observation; a failing fold requires an execution error. Non-trivial: chain >= 2 whose reversal gives a different result, or a parameter from an enclosing scope; distinct by source.",
 	Gen:   func(t *rapid.T) any { return genC19(t) },
 	New:   func() any { return &c19Case{} },
 	Check: checkC19,
